@@ -29,7 +29,7 @@ type cscript struct {
 	cfg     config
 	threads [][]string // per driver thread: operations ("r1:<msg>", "new:C", "d1")
 	rounds  int        // envelopes the receiver thread tries to take
-	delta   int
+	bq, bt  int        // deviation bound in the quick / thorough tier
 }
 
 type cev struct {
@@ -406,24 +406,29 @@ func concScripts() []*cscript {
 	base := config{L: 2, R: 16, T: 44}
 	one := config{L: 2, R: 16, T: 1}
 	return []*cscript{
-		{name: "two-peers", cfg: base, threads: [][]string{{"r1:bA1"}, {"r2:bB2"}}, rounds: 2, delta: -1},
-		{name: "cancel-race", cfg: one, threads: [][]string{{"r1:bA1", "r1:xA"}}, rounds: 2},
-		{name: "want-upgrade", cfg: config{L: 2, R: 0, T: 1}, threads: [][]string{{"r1:hB2!", "r1:bB2"}}, rounds: 2},
-		{name: "two-wants-one-peer", cfg: base, threads: [][]string{{"r1:bA1", "r1:bC3!"}}, rounds: 2},
-		{name: "notify-race", cfg: one, threads: [][]string{{"r1:bC3!"}, {"new:C"}}, rounds: 2, delta: -1},
-		{name: "notify-race-silent", cfg: one, threads: [][]string{{"r1:bC3"}, {"new:C"}}, rounds: 1},
-		{name: "overflow-race", cfg: config{L: 1, R: 16, T: 1}, threads: [][]string{{"r1:bA1", "r1:bE4"}}, rounds: 2},
-		{name: "disconnect-race", cfg: one, threads: [][]string{{"r1:bA1"}, {"d1"}}, rounds: 2, delta: -1},
-		{name: "same-cid-two-peers-cancel", cfg: one, threads: [][]string{{"r1:bA1", "r1:xA"}, {"r2:bA1"}}, rounds: 2, delta: -1},
+		{name: "two-peers", cfg: base, threads: [][]string{{"r1:bA1"}, {"r2:bB2"}}, rounds: 2, bq: 0, bt: 1},
+		{name: "cancel-race", cfg: one, threads: [][]string{{"r1:bA1", "r1:xA"}}, rounds: 2, bq: 1, bt: 2},
+		{name: "want-upgrade", cfg: config{L: 2, R: 0, T: 1}, threads: [][]string{{"r1:hB2!", "r1:bB2"}}, rounds: 2, bq: 1, bt: 2},
+		{name: "two-wants-one-peer", cfg: base, threads: [][]string{{"r1:bA1", "r1:bC3!"}}, rounds: 2, bq: 1, bt: 1},
+		{name: "notify-race", cfg: one, threads: [][]string{{"r1:bC3!"}, {"new:C"}}, rounds: 2, bq: 0, bt: 1},
+		{name: "notify-race-silent", cfg: one, threads: [][]string{{"r1:bC3"}, {"new:C"}}, rounds: 1, bq: 1, bt: 1},
+		{name: "overflow-race", cfg: config{L: 1, R: 16, T: 1}, threads: [][]string{{"r1:bA1", "r1:bE4"}}, rounds: 2, bq: 1, bt: 1},
+		{name: "disconnect-race", cfg: one, threads: [][]string{{"r1:bA1"}, {"d1"}}, rounds: 2, bq: 0, bt: 1},
+		{name: "same-cid-two-peers-cancel", cfg: one, threads: [][]string{{"r1:bA1", "r1:xA"}, {"r2:bA1"}}, rounds: 2, bq: 0, bt: 1},
 	}
 }
 
-func concScenarios() []*vexp.Scenario {
+// concScenarios: BoundDelta is relative to vexp.Options.Bound = 1 (quick) / 2 (thorough).
+func concScenarios(thorough bool) []*vexp.Scenario {
 	var out []*vexp.Scenario
 	for _, s := range concScripts() {
 		s := s
+		delta := s.bq - 1
+		if thorough {
+			delta = s.bt - 2
+		}
 		out = append(out, &vexp.Scenario{
-			Name: s.name, BoundDelta: s.delta,
+			Name: s.name, BoundDelta: delta,
 			Cfg: vsched.Config{MaxSteps: 100000, MaxIdleFires: 2, SelectCost: 1},
 			New: func() vexp.Exec { return &cexec{sc: s} },
 		})
